@@ -10,7 +10,7 @@ import NumqiModel.Manifold
 namespace Numqi.Manifold
 open Finset
 
-noncomputable instance : Transc ℝ := ⟨Real.sqrt, Real.exp, Real.log, Real.sin, Real.cos⟩
+noncomputable instance : Transc ℝ := ⟨Real.sqrt, Real.exp, Real.log, Real.sin, Real.cos, fun x => Real.log (1 + x)⟩
 noncomputable instance : CxOps ℝ ℂ := ⟨Complex.ofReal, starRingEnd ℂ, Complex.I, Complex.re, Complex.im⟩
 
 @[simp] theorem sqrt_eq (x : ℝ) : sqrt x = Real.sqrt x := rfl
@@ -18,6 +18,7 @@ noncomputable instance : CxOps ℝ ℂ := ⟨Complex.ofReal, starRingEnd ℂ, Co
 @[simp] theorem log_eq (x : ℝ) : log x = Real.log x := rfl
 @[simp] theorem sin_eq (x : ℝ) : sin x = Real.sin x := rfl
 @[simp] theorem cos_eq (x : ℝ) : cos x = Real.cos x := rfl
+@[simp] theorem log1p_eq (x : ℝ) : log1p x = Real.log (1 + x) := rfl
 
 theorem sumRange_eq {M : Type} [AddCommMonoid M] (n : Nat) (f : Nat → M) : sumRange n f = ∑ i ∈ range n, f i := by
   unfold sumRange
@@ -35,8 +36,8 @@ theorem softplus_pos' (x : ℝ) : 0 < softplus x := by
   unfold softplus
   split_ifs with h
   · have : 0 < Real.log (1 + Real.exp (-x)) := Real.log_pos (by linarith [Real.exp_pos (-x)])
-    simp only [log_eq, exp_eq]; linarith
-  · simp only [log_eq, exp_eq]; exact Real.log_pos (by linarith [Real.exp_pos x])
+    simp only [log1p_eq, exp_eq]; linarith
+  · simp only [log1p_eq, exp_eq]; exact Real.log_pos (by linarith [Real.exp_pos x])
 
 theorem sigmoid_mem (x : ℝ) : 0 < sigmoid x ∧ sigmoid x < 1 := by
   unfold sigmoid
